@@ -40,7 +40,7 @@ def job(args):
         if p.returncode != 0:
             res['errors']['patch'] = p.stdout[-200:]
             return res
-        for prop in PROPS:
+        for prop in ([name[:3]] if kind == 'seeded' and '--target-only' in sys.argv else PROPS):
             try:
                 rep = analyse(prop, tmp)
                 v = rep.new_violations()
